@@ -1036,3 +1036,101 @@ Proof.
 Qed.
 End WithOpts.
 End POST.
+
+Definition odec_val (o : option (text * text)) : Qc :=
+  match o with Some (a, b) => dval (a ++ 46 :: b) | None => 0%Qc end.
+
+Lemma opt_dec_odec o : odec_ok o -> opt_dec (odec_text o) = Ok (option_map dval (odec_text o)).
+Proof.
+  destruct o as [[a b]|]; cbn [odec_ok odec_text opt_dec option_map]; [|reflexivity].
+  intros H. dsplit H. rewrite parse_large_dec by assumption. reflexivity.
+Qed.
+
+Lemma post_parse acct m1 d1 y1 m2 d2 y2 qty pa pb ty sym ocom ofee st act v :
+  acct <> [] /\ forallb is_acct acct = true ->
+  digits m1 /\ digits d1 /\ digits y1 /\ m1 <> [] /\ d1 <> [] /\ y1 <> [] ->
+  digits m2 /\ digits d2 /\ digits y2 /\ m2 <> [] /\ d2 <> [] /\ y2 <> [] ->
+  digits qty /\ qty <> [] -> decparts pa pb ->
+  ty <> [] /\ forallb is_typec ty = true ->
+  (2 <= length ty)%nat /\ hd_in nonspace ty = true /\ hd_in nonspace (rev ty) = true ->
+  sym <> [] /\ forallb is_updot sym = true ->
+  odec_ok ocom -> odec_ok ofee ->
+  parse_mdy (m1, d1, y1) = Ok (date_ord (m1, d1, y1)) -> parse_mdy (m2, d2, y2) = Ok (date_ord (m2, d2, y2)) ->
+  action_of ty = Ok act -> (length qty <= 28)%nat ->
+  a_add dec (odec_val ocom) (odec_val ofee) = Ok v ->
+  parse_tc_post (flat (post_doc acct m1 d1 y1 m2 d2 y2 qty pa pb ty sym st ocom ofee))
+  = Ok {| tt_sec := sym; tt_td := date_ord (m1, d1, y1); tt_sd := date_ord (m2, d2, y2);
+          tt_td_text := date_text 47 (m1, d1, y1); tt_sd_text := date_text 47 (m2, d2, y2);
+          tt_act := act; tt_price := dval (pa ++ 46 :: pb); tt_shares := dval qty; tt_comm := v;
+          tt_row := 1; tt_acct := acct |}.
+Proof.
+  intros Hacct Htd Hsd Hqty Hp Hty Hty2 Hsym Hcom Hfee P1 P2 PA LQ PV.
+  unfold parse_tc_post.
+  destruct (post_account acct m1 d1 y1 m2 d2 y2 qty pa pb ty sym Hacct Htd Hsd Hqty Hp Hty Hsym st ocom ofee Hcom Hfee) as [rest E].
+  rewrite E. cbn [bind].
+  rewrite (post_find acct m1 d1 y1 m2 d2 y2 qty pa pb ty sym Hacct Htd Hsd Hqty Hp Hty Hty2 Hsym ocom ofee Hcom Hfee st).
+  unfold trade_of_caps. cbn [cp_td cp_sd cp_sym cp_act cp_n cp_price cp_comm cp_fee].
+  rewrite P1, P2. cbn [bind]. rewrite PA. cbn [bind].
+  pose proof Hp as Hp'. dsplit Hp'. rewrite parse_large_dec by assumption. cbn [bind].
+  destruct Hqty as [Q1 Q2]. rewrite parse_large_int by assumption. cbn [bind].
+  rewrite (opt_dec_odec ocom Hcom). cbn [bind]. rewrite (opt_dec_odec ofee Hfee). cbn [bind].
+  assert (EC : or_zero (option_map dval (odec_text ocom)) = odec_val ocom) by (destruct ocom as [[? ?]|]; reflexivity).
+  assert (EF : or_zero (option_map dval (odec_text ofee)) = odec_val ofee) by (destruct ofee as [[? ?]|]; reflexivity).
+  rewrite EC, EF, PV. cbn [bind]. reflexivity.
+Qed.
+
+(* the well-formed class of post-2023 confirmations *)
+Definition acct_ok (t : text) : bool := negb (Nat.eqb (length t) 0) && forallb is_acct t.
+Definition type_ok (t : text) : bool :=
+  forallb is_typec t && Nat.leb 2 (length t) && hd_in nonspace t && hd_in nonspace (rev t).
+Definition optdec_ok (o : option text) : bool := match o with Some t => is_dec t | None => true end.
+Definition int_ok (t : text) : bool := num_ok t && Nat.leb (length t) 28.
+
+Definition wf_post (r : post_lay) : bool :=
+  acct_ok (po_acct r) && date_ok (po_td r) && date_ok (po_sd r) && int_ok (po_qty r) && is_dec (po_price r)
+  && type_ok (po_type r) && sym_ok (po_sym r) && optdec_ok (po_comm r) && optdec_ok (po_fee r)
+  && is_ok (action_of (po_type r)) && is_ok (a_add dec (opt_dval (po_comm r)) (opt_dval (po_fee r))).
+
+Lemma optdec_parts o : optdec_ok o = true ->
+  exists o', odec_ok o' /\ o = odec_text o' /\ opt_dval o = odec_val o'.
+Proof.
+  destruct o as [t|]; cbn [optdec_ok]; intros H.
+  - destruct (decparts_of t H) as (a & b & -> & Hd). exists (Some (a, b)). split; [exact Hd|split; reflexivity].
+  - exists None. split; [exact I|split; reflexivity].
+Qed.
+
+Theorem post_text_roundtrip st r : wf_post r = true -> parse_tc_post (render_tc_post st r) = Ok (post_record r).
+Proof.
+  destruct r as [acct [[m1 d1] y1] [[m2 d2] y2] qty price ty sym com fee]. unfold wf_post.
+  cbn [po_acct po_td po_sd po_qty po_price po_type po_sym po_comm po_fee]. intros H.
+  apply andb_true_iff in H; destruct H as [H Wadd]. apply andb_true_iff in H; destruct H as [H Wact].
+  apply andb_true_iff in H; destruct H as [H Wfee]. apply andb_true_iff in H; destruct H as [H Wcom].
+  apply andb_true_iff in H; destruct H as [H Wsym]. apply andb_true_iff in H; destruct H as [H Wty].
+  apply andb_true_iff in H; destruct H as [H Wprice]. apply andb_true_iff in H; destruct H as [H Wqty].
+  apply andb_true_iff in H; destruct H as [H Wsd]. apply andb_true_iff in H; destruct H as [Wacct Wtd].
+  destruct (decparts_of _ Wprice) as (pa & pb & -> & Hp).
+  destruct (optdec_parts _ Wcom) as (ocom & Hcom & -> & Vc). destruct (optdec_parts _ Wfee) as (ofee & Hfee & -> & Vf).
+  destruct (date_ok_spec _ _ _ Wtd) as (A1 & A2 & A3 & A4 & A5 & A6 & P1).
+  destruct (date_ok_spec _ _ _ Wsd) as (B1 & B2 & B3 & B4 & B5 & B6 & P2).
+  destruct (sym_ok_spec _ Wsym) as (S1 & S2 & _).
+  unfold int_ok in Wqty. apply andb_true_iff in Wqty. destruct Wqty as [Wq1 Wq2]. apply Nat.leb_le in Wq2.
+  destruct (num_ok_spec _ Wq1) as [Q1 Q2].
+  unfold acct_ok in Wacct. apply andb_true_iff in Wacct. destruct Wacct as [Wa1 Wa2].
+  assert (Na : acct <> []) by (intros ->; discriminate).
+  unfold type_ok in Wty. apply andb_true_iff in Wty; destruct Wty as [Wty T4].
+  apply andb_true_iff in Wty; destruct Wty as [Wty T3]. apply andb_true_iff in Wty; destruct Wty as [T1 T2].
+  apply Nat.leb_le in T2. assert (Nt : ty <> []) by (intros ->; cbn in T2; lia).
+  destruct (action_of ty) as [act| |] eqn:EA; try discriminate Wact.
+  rewrite Vc, Vf in Wadd. destruct (a_add dec (odec_val ocom) (odec_val ofee)) as [v| |] eqn:EV; try discriminate Wadd.
+  pose proof (post_parse acct m1 d1 y1 m2 d2 y2 qty pa pb ty sym ocom ofee st act v (conj Na Wa2)
+                (conj A1 (conj A2 (conj A3 (conj A4 (conj A5 A6))))) (conj B1 (conj B2 (conj B3 (conj B4 (conj B5 B6)))))
+                (conj Q1 Q2) Hp (conj Nt T1) (conj T2 (conj T3 T4)) (conj S1 S2) Hcom Hfee P1 P2 EA Wq2 EV) as P.
+  replace (render_tc_post st _) with (flat (post_doc acct m1 d1 y1 m2 d2 y2 qty pa pb ty sym st ocom ofee)).
+  - rewrite P. unfold post_record, sell_or_buy, dec_sum.
+    cbn [po_acct po_td po_sd po_qty po_price po_type po_sym po_comm po_fee].
+    rewrite EA, Vc, Vf, EV. reflexivity.
+  - unfold render_tc_post, post_doc, post_tail, decseg, dateseg, date_text, opt_line, comseg, feeseg, nl.
+    cbn [po_acct po_td po_sd po_qty po_price po_type po_sym po_comm po_fee].
+    destruct ocom as [[ca cb]|], ofee as [[fa fb]|]; cbn [odec_text app flat seg_text decseg];
+      norm_apps; rewrite ?app_nil_r; reflexivity.
+Qed.
